@@ -5,7 +5,10 @@
    root gate, clones and publishers: GateModel.action) from the initial state;
    actions that are not enabled are no-ops, so "forall tr" is "for all
    interleavings". [cf_follow cf = false] is the gate after the repair
-   (`fix:` commit in rotonda), [true] the code at the pinned commit. *)
+   (`fix:` commit in rotonda), [true] the code at the pinned commit.
+   [cf_guard cf = true] is Link::connect after the repair (an answer of the gate
+   that is never picked up - the connect() future was dropped - is handed back
+   with Unsubscribe), [false] the code before it. *)
 From Coq Require Import List NArith Bool.
 From RV Require Import Gate.GateModel Gate.GateProofs.
 Import ListNotations.
@@ -14,9 +17,12 @@ Local Open Scope N_scope.
 (* For every link l and publisher p (root gate or clone), on every schedule, the
    sequence numbers handed to l (queued to its channel / passed to its direct
    target) by p are strictly increasing: nothing twice, nothing out of order -
-   whatever other links, clones and publishers do concurrently. *)
+   whatever other links, clones and publishers do concurrently, INCLUDING links
+   that give up on connect() half-way ([AAbandon]: before the gate got to their
+   Subscribe, or after it answered and before the answer was picked up) and
+   connect again, with the gate lagging behind by any number of commands. *)
 Theorem C08_at_most_once_in_order : forall cf tr l p,
-  cf_follow cf = false ->
+  cf_follow cf = false -> cf_guard cf = true ->
   strictly_desc (lseqs_of l p (delivered (run cf tr))).
 Proof. exact at_most_once_in_order. Qed.
 Print Assumptions C08_at_most_once_in_order.
@@ -28,7 +34,54 @@ Theorem C08_follow_replay_refuted :
 Proof. exact follow_replay_refuted. Qed.
 Print Assumptions C08_follow_replay_refuted.
 
-(* ... what does hold for it (and for the repaired code): per gate SLOT. *)
+(* Link::connect as it was: the connect() future is dropped after the gate answered and before
+   the answer was picked up; the slot named in the lost answer stays in the gate. The component
+   connects again and gets every update twice. Reproduced on the real code by `b 1;c 1;u 0`. *)
+Theorem C08_lost_answer_refuted :
+  exists cf tr l p, cf_follow cf = false /\ cf_guard cf = false /\
+    ~ strictly_desc (lseqs_of l p (delivered (run cf tr))).
+Proof. exact lost_answer_refuted. Qed.
+Print Assumptions C08_lost_answer_refuted.
+
+(* No orphan slot. On every schedule - connects abandoned early or late, a lagging gate - every
+   slot in `updates` or `suspended` belongs to a link that holds it (its connect() returned that
+   slot, or the answer naming it waits in the oneshot), or the Unsubscribe for it is already
+   queued at the gate. In particular the slot the gate inserts for a Subscribe whose requester is
+   gone does not survive the handling of that command. *)
+Theorem C08_no_orphan_slot : forall cf tr x l,
+  cf_follow cf = false -> cf_guard cf = true ->
+  In (x, l) (upd (run cf tr) ++ sus (run cf tr)) ->
+  holds_slot (links (run cf tr) l) x \/ In (CUnsub x) (rootq (run cf tr)).
+Proof. exact no_orphan_slot. Qed.
+Print Assumptions C08_no_orphan_slot.
+
+(* ... never two slots for one link (one queue, one direct-update target) ... *)
+Theorem C08_one_slot_per_link : forall cf tr x1 x2 l,
+  cf_follow cf = false -> cf_guard cf = true ->
+  In (x1, l) (upd (run cf tr) ++ sus (run cf tr)) -> In (x2, l) (upd (run cf tr) ++ sus (run cf tr)) -> x1 = x2.
+Proof. exact one_slot_per_link. Qed.
+Print Assumptions C08_one_slot_per_link.
+
+(* ... and a link that gave up and has nothing of its own on its way to the gate has no slot. *)
+Theorem C08_idle_link_has_no_slot : forall cf tr x l,
+  cf_follow cf = false -> cf_guard cf = true ->
+  links (run cf tr) l = LIdle -> ~ In (CUnsub x) (rootq (run cf tr)) ->
+  ~ In (x, l) (upd (run cf tr) ++ sus (run cf tr)).
+Proof. exact idle_link_has_no_slot. Qed.
+Print Assumptions C08_idle_link_has_no_slot.
+
+(* What Gate::subscribe does for a requester that is gone - insert the slot, fail to answer,
+   remove the slot - leaves both maps and every link as they were, whenever it happens. *)
+Theorem C08_dead_subscribe_is_noop : forall cf tr l q,
+  cf_follow cf = false -> cf_guard cf = true ->
+  let s := run cf tr in
+  rootq s = CSubDead l :: q -> rnote s = [] -> root_term s || root_dropped s = false ->
+  upd (step cf s ARoot) = upd s /\ sus (step cf s ARoot) = sus s /\ links (step cf s ARoot) = links s /\
+  rootq (step cf s ARoot) = q /\ rnote (step cf s ARoot) = [].
+Proof. exact dead_subscribe_is_noop. Qed.
+Print Assumptions C08_dead_subscribe_is_noop.
+
+(* ... what does hold for the pinned code too (and for the repaired code): per gate SLOT. *)
 Theorem C08_at_most_once_in_order_per_slot_partial : forall cf tr x p,
   strictly_desc (seqs_of x p (delivered (run cf tr))).
 Proof. exact at_most_once_in_order_per_slot. Qed.
@@ -47,7 +100,7 @@ Print Assumptions C08_finished_update_reached_snapshot.
    suspension request of its own still on its way to the gate - is in `updates`, so the next
    snapshot of any publisher contains it; no matter what other links and clones are doing. *)
 Theorem C08_active_link_in_updates : forall cf tr l x,
-  cf_follow cf = false -> link_active (run cf tr) l x -> In (x, l) (upd (run cf tr)).
+  cf_follow cf = false -> cf_guard cf = true -> link_active (run cf tr) l x -> In (x, l) (upd (run cf tr)).
 Proof. exact active_link_in_updates. Qed.
 Print Assumptions C08_active_link_in_updates.
 
@@ -56,7 +109,7 @@ Print Assumptions C08_active_link_in_updates.
    once that call has returned, n has been handed to l - unless l itself dropped its receiver
    (disconnected) meanwhile. With C08_at_most_once_in_order: exactly once, in order. *)
 Theorem C08_exactly_once_while_connected : forall cf tr1 tr2 l x p n,
-  cf_follow cf = false ->
+  cf_follow cf = false -> cf_guard cf = true ->
   link_active (run cf tr1) l x ->
   pubs (run cf tr1) p = PIdle n -> pub_alive (run cf tr1) p = true ->
   let s2 := run cf (tr1 ++ ABegin p :: tr2) in
@@ -157,11 +210,11 @@ Print Assumptions C08_gate_dropped_le_published.
    (blocked on the full queue) while the direct link re-subscribes; the direct link's target
    is dropped and the next update, which nobody takes, is counted as dropped *)
 Example C08_example :
-  let cf := MkCfg 1 false in
-  let tr := [AClone; ARoot; ASendSub 0; ARoot; ARoot; ASendSub 1; ARoot; ARoot;
+  let cf := MkCfg 1 false true in
+  let tr := [AClone; ARoot; ASendSub 0; ARoot; ARoot; APick 0; ASendSub 1; ARoot; ARoot; APick 1;
              ABegin 0; ADeliver 0; ADeliver 0; AEnd 0;
              ABegin 1; ADeliver 1;            (* blocked: queue of link 0 is full *)
-             ASendUnsub 1; ARoot; ARoot; ASendSub 1; ARoot; ARoot;
+             ASendUnsub 1; ARoot; ARoot; ASendSub 1; ARoot; ARoot; APick 1;
              ARecv 0; ADeliver 1; ADeliver 1; AEnd 1;
              ARecv 0; ABegin 0; ADeliver 0; ADeliver 0; AEnd 0] in
   lseqs_of 1 0 (delivered (run cf tr)) = [1; 0] /\ lseqs_of 1 1 (delivered (run cf tr)) = [0] /\
@@ -181,8 +234,8 @@ Proof. vm_compute. repeat split; reflexivity. Qed.
    seen Terminated, clone 2 - behind clone 1 on the root's list - cannot get it by draining its
    own queue; once clone 1 takes a command the sends go through and both clones get it. *)
 Example C08_example_full_queue :
-  let cf := MkCfg 2 false in
-  let churn := [ASendSub 1; ARoot; ARoot; ARoot; ASendUnsub 1; ARoot; ARoot; ARoot] in
+  let cf := MkCfg 2 false true in
+  let churn := [ASendSub 1; ARoot; ARoot; ARoot; APick 1; ASendUnsub 1; ARoot; ARoot; ARoot] in
   let tr := [AClone; ARoot; AClone; ARoot] ++ churn ++ churn ++ churn ++ churn ++ churn ++ churn ++ churn ++ churn
             ++ [ACloneStep 2; ACloneStep 2; ACloneStep 2; ACloneStep 2; ASendTerm; ARoot; ARoot; ARoot] in
   let s := run cf tr in
@@ -192,4 +245,21 @@ Example C08_example_full_queue :
   c_term (clones (clone_drain cf 20 s 2) 2) = false /\
   c_term (clones (term_settle cf s 1) 1) = true /\ c_term (clones (term_settle cf s 2) 2) = true /\
   root_term (term_settle cf s 2) = true.
+Proof. vm_compute. repeat split; reflexivity. Qed.
+
+(* non-vacuity of the abandoned connects: direct link 1 gives up before the gate got to its
+   Subscribe and tries again at once (the gate lags: both commands are queued, the first one with
+   nobody waiting for its answer); the gate catches up and answers the second try; the link gives
+   up again, without picking the answer up, and connects a third time. Three slots were handed
+   out, one is left, link 1 holds it, and the update reaches link 1 once. With Link::connect as it
+   was the same schedule leaves two slots for one target, which gets the update twice. *)
+Example C08_example_abandoned :
+  let tr := [ASendSub 1; AAbandon 1; ASendSub 1] in
+  let tr2 := tr ++ [ARoot; ARoot; AAbandon 1; ASendSub 1; ARoot; ARoot; APick 1; ABegin 0; ADeliver 0; ADeliver 0; AEnd 0] in
+  let s := run (MkCfg 2 false true) tr2 in
+  rootq (run (MkCfg 2 false true) tr) = [CSubDead 1; CSub 1] /\
+  upd s = [(2, 1)] /\ nslot s = 3 /\ links s 1 = LConn 2 false /\ rootq s = [] /\
+  lseqs_of 1 0 (delivered s) = [0] /\
+  upd (run (MkCfg 2 false false) tr2) = [(1, 1); (2, 1)] /\
+  lseqs_of 1 0 (delivered (run (MkCfg 2 false false) tr2)) = [0; 0].
 Proof. vm_compute. repeat split; reflexivity. Qed.
